@@ -1058,6 +1058,9 @@ def run(tier, seed):
     # model's for all inputs; a failure is reported when the check finishes unless a stage below finds a
     # concrete failing input
     gen_tie.gate(chk, ['spawn_setup'], gate)
+    # fourth round: the order in which TestCommand::new applies the environment sources (config [env], OUT_DIR and
+    # build-script variables before nextest's own NEXTEST* / CARGO_* variables), regenerated from the source
+    gen_tie.gate(chk, ['env_order'], gate, family="glue")
     binary, err = vlib.build_harness()
     checker = "make -C coq Properties/C15.vo && coqc gen/assump_C15.v (Print Assumptions)"
     if binary is None:
